@@ -455,6 +455,95 @@ func init() {
 	// ---- strings / bytes ----
 	models["strings.Contains"] = func(it *Interp, a []Val) Val { return it.strContains(a[0].(*StrV), a[1].(*StrV)) }
 	models["bytes.Contains"] = models["strings.Contains"]
+	trimFix := func(prefix bool) modelFn {
+		return func(it *Interp, a []Val) Val {
+			str, fix := a[0].(*StrV), a[1].(*StrV)
+			cs, okS := str.concreteString()
+			cf, okF := fix.concreteString()
+			if okS && okF {
+				if prefix {
+					return strLit(strings.TrimPrefix(cs, cf))
+				}
+				return strLit(strings.TrimSuffix(cs, cf))
+			}
+			var has *Term
+			if prefix {
+				has = it.strHasPrefix(str, fix)
+			} else {
+				has = it.strHasSuffix(str, fix)
+			}
+			if !it.p.branch(has) {
+				return str
+			}
+			if isPlainB(str) && isPlainB(fix) {
+				if prefix {
+					return &StrV{Bytes: str.Bytes[len(fix.Bytes):len(str.Bytes):len(str.Bytes)], IsB: true}
+				}
+				k := len(str.Bytes) - len(fix.Bytes)
+				return &StrV{Bytes: str.Bytes[:k:k], IsB: true}
+			}
+			// opaque: s = fix ++ rest (resp. rest ++ fix)
+			t := it.toA(str)
+			name := "trimsuffix"
+			if prefix {
+				name = "trimprefix"
+			}
+			rest := &StrV{T: App(name, SStr, t, it.toA(fix))}
+			it.strLenTerm(rest.T)
+			if prefix {
+				it.p.assertAxiom(it.strEq(str, it.strConcat(fix, rest)))
+			} else {
+				it.p.assertAxiom(it.strEq(str, it.strConcat(rest, fix)))
+			}
+			return rest
+		}
+	}
+	models["strings.TrimPrefix"] = trimFix(true)
+	models["strings.TrimSuffix"] = trimFix(false)
+	models["strings.SplitN"] = func(it *Interp, a []Val) Val {
+		str, sep := a[0].(*StrV), a[1].(*StrV)
+		n := it.concreteInt(a[2], "strings.SplitN count")
+		cs, okS := str.concreteString()
+		csep, okSep := sep.concreteString()
+		mk := func(parts []*StrV) Val {
+			vals := make([]Val, len(parts))
+			for i, p := range parts {
+				vals[i] = p
+			}
+			return &SliceV{Arr: &vals, Len: len(vals), Cap: len(vals)}
+		}
+		if okS && okSep {
+			var parts []*StrV
+			for _, p := range strings.SplitN(cs, csep, n) {
+				parts = append(parts, strLit(p))
+			}
+			return mk(parts)
+		}
+		if n != 2 || !okSep || csep == "" {
+			it.fail("strings.SplitN on a symbolic string is modelled for n = 2 and a constant separator only")
+		}
+		if isPlainB(str) && len(csep) == 1 {
+			// structured: the first occurrence of the separator byte, found by branching
+			for i := range str.Bytes {
+				if it.p.branch(Eq(str.Bytes[i], BVu(8, uint64(csep[0])))) {
+					return mk([]*StrV{{Bytes: str.Bytes[:i:i], IsB: true}, {Bytes: str.Bytes[i+1 : len(str.Bytes) : len(str.Bytes)], IsB: true}})
+				}
+			}
+			return mk([]*StrV{str})
+		}
+		// opaque: either the separator does not occur (one part) or s = before ++ sep ++ after
+		t := it.toA(str)
+		it.strLenTerm(t)
+		if !it.p.branch(it.strContains(str, sep)) {
+			return mk([]*StrV{str})
+		}
+		before := &StrV{T: App("splitn2!before!"+csep, SStr, t)}
+		after := &StrV{T: App("splitn2!after!"+csep, SStr, t)}
+		it.strLenTerm(before.T)
+		it.strLenTerm(after.T)
+		it.p.assertAxiom(it.strEq(str, it.strConcat(it.strConcat(before, strLit(csep)), after)))
+		return mk([]*StrV{before, after})
+	}
 	// process memory: atomic.Value is a cell, locks are no-ops (the executor is sequential)
 	models["(*sync/atomic.Value).Store"] = func(it *Interp, a []Val) Val {
 		p, ok := a[0].(Ptr)
